@@ -60,10 +60,38 @@ def parse_template(template):
         m = _FIELD.match(s)
         if m:
             segs.append(('field', m.group(1), m.group(2)))
+        elif '{' in s:
+            # several plain fields and literal text in one segment, e.g. 'v{major}.{minor}'
+            parts = []
+            for tok in re.split(r'(\{[A-Za-z_][A-Za-z0-9_]*\})', s):
+                if tok.startswith('{'):
+                    parts.append(('f', tok[1:-1]))
+                elif tok:
+                    assert '{' not in tok and '}' not in tok, template
+                    parts.append(('l', tok))
+            segs.append(('multi', parts))
         else:
-            assert '{' not in s and '}' not in s, template
+            assert '}' not in s, template
             segs.append(('lit', s))
     return segs
+
+
+def _multi_ways(parts, text, limit=2):
+    """All ways (up to `limit`) to read `text` as the literal parts with a NON-EMPTY value for every field."""
+    if not parts:
+        return [{}] if text == '' else []
+    kind, val = parts[0]
+    if kind == 'l':
+        return _multi_ways(parts[1:], text[len(val):], limit) if text.startswith(val) else []
+    out = []
+    for cut in range(1, len(text) + 1):
+        for rest in _multi_ways(parts[1:], text[cut:], limit):
+            d = {val: text[:cut]}
+            d.update(rest)
+            out.append(d)
+            if len(out) >= limit:
+                return out
+    return out
 
 
 def match_template(segs, path):
@@ -90,6 +118,14 @@ def _match_segments(segs, psegs):
         if seg[0] == 'lit':
             if seg[1] != p:
                 return False, None
+        elif seg[0] == 'multi':
+            ways = _multi_ways(seg[1], p)
+            if not ways:
+                return False, None
+            if len(ways) > 1 or '\n' in p:
+                unsure = True           # which split the router prefers is C01's business
+                continue
+            kwargs.update(ways[0])
         else:
             if p == '':
                 unsure = True
